@@ -231,12 +231,12 @@ func ctorLitMatches(fn *Func, e ast.Expr, sel emitSel) bool {
 		}
 		if rs, ok := n.(*ast.ReturnStmt); ok && len(rs.Results) >= 1 {
 			res := ast.Unparen(rs.Results[0])
-			if litMatches(tgt.Info(), res, sel) {
+			if litMatches(tgt, res, sel) {
 				hit = true
 			}
 			// `x := T{…}; …; return x`
 			if id, ok := res.(*ast.Ident); ok {
-				if def := tgt.SingleDef(tgt.Info().ObjectOf(id)); def != nil && litMatches(tgt.Info(), def, sel) {
+				if def := tgt.SingleDef(tgt.Info().ObjectOf(id)); def != nil && litMatches(tgt, def, sel) {
 					hit = true
 				}
 			}
